@@ -197,7 +197,7 @@ pub fn draw_policies(r: &mut Rng) -> [Policy; N_KINDS] {
 // the Check trait
 
 pub trait Check: Sync {
-    type Case: Serialize + DeserializeOwned + Clone + Send;
+    type Case: Serialize + DeserializeOwned + Clone + Send + 'static;
     const ID: &'static str;
     /// number of simulated runs for a tier in this build profile
     fn runs(tier: Tier) -> u64;
@@ -208,6 +208,12 @@ pub trait Check: Sync {
     fn assumptions() -> Vec<&'static str>;
     /// names of reach probes that must be non-zero in a thorough run (selftest)
     fn required_probes() -> Vec<&'static str> {
+        vec![]
+    }
+    /// unusually large, structured workloads (size thresholds, recursion depth).  Each one is executed
+    /// in a child process on a thread with the default 2 MiB stack, so that a stack overflow or abort
+    /// of the library is observed as a violation instead of killing the simulator.
+    fn stress(_tier: Tier) -> Vec<Self::Case> {
         vec![]
     }
     fn components() -> Value;
@@ -490,6 +496,32 @@ pub fn drive<C: Check>(o: &Opts) -> i32 {
     let mut exit = 0;
     let mut violations = 0;
     let mut replay_path = String::new();
+    let mut stress_run = 0u64;
+    let mut failure = failure;
+    let mut stress_failure: Option<String> = None;
+    if failure.is_none() && o.runs_override.is_none() {
+        let n_stress = C::stress(o.tier).len();
+        for k in 0..n_stress {
+            stress_run += 1;
+            match run_stress_child::<C>(o, k) {
+                Ok(None) => {}
+                Ok(Some(path)) => {
+                    stress_failure = Some(path);
+                    break;
+                }
+                Err(e) => {
+                    eprintln!("HARNESS-ERROR: {}", e);
+                    return 2;
+                }
+            }
+        }
+    }
+    if let Some(p) = stress_failure {
+        violations = 1;
+        exit = 1;
+        replay_path = p;
+        failure = None;
+    }
     if let Some((i, v)) = failure {
         violations = 1;
         exit = 1;
@@ -526,6 +558,7 @@ pub fn drive<C: Check>(o: &Opts) -> i32 {
         "faults_effective_output_changed": kinds(&tot.effective),
         "isomorphism_undecided": tot.iso_undecided,
         "known_finding_hits": tot.known_hits,
+        "stress_cases_run_in_child_processes": stress_run,
         "probes": probes,
         "wall_s": wall,
         "runs_per_hour": if wall > 0.0 { (tot.runs as f64 / wall * 3600.0) as u64 } else { 0 },
@@ -777,6 +810,108 @@ fn report_failure<C: Check>(o: &Opts, index: u64, v0: Violation) -> Result<Strin
 
 fn minimised_trace_is_empty(t: &[Decision]) -> bool {
     t.is_empty()
+}
+
+fn stress_replay_path(o: &Opts, id: &str, k: usize) -> String {
+    format!("{}/replays/{}-{}-seed{}-stress{}.json", o.verif_dir, id, PROFILE, o.seed, k)
+}
+
+/// parent side: run stress case k in a child process; Ok(Some(path)) = violation with replay file
+fn run_stress_child<C: Check>(o: &Opts, k: usize) -> Result<Option<String>, String> {
+    let id = C::ID;
+    let exe = std::env::current_exe().map_err(|e| e.to_string())?;
+    let out = std::process::Command::new(exe)
+        .args(["stress", id, &k.to_string(), "--tier", o.tier.name()])
+        .env("VERIF_SEED", o.seed.to_string())
+        .env("VERIF_DIR", &o.verif_dir)
+        .output()
+        .map_err(|e| e.to_string())?;
+    let path = stress_replay_path(o, id, k);
+    match out.status.code() {
+        Some(0) => Ok(None),
+        Some(1) => {
+            print!("{}", String::from_utf8_lossy(&out.stdout));
+            Ok(Some(path))
+        }
+        Some(2) => Err(format!("stress child {} {}: {}", id, k, String::from_utf8_lossy(&out.stderr))),
+        other => {
+            // killed by a signal / aborted: the library took the process down (e.g. stack overflow)
+            let case = C::stress(o.tier).into_iter().nth(k).ok_or("stress case index out of range")?;
+            let stderr = String::from_utf8_lossy(&out.stderr);
+            let last = stderr.lines().rev().find(|l| !l.trim().is_empty()).unwrap_or("").to_string();
+            let rf = ReplayFile {
+                property: id.into(),
+                profile: PROFILE.into(),
+                verif_seed: o.seed,
+                run_index: k as u64,
+                sched_seed: 0,
+                minimised: false,
+                violation: Violation { class: format!("{}:stress:process-aborted", id), detail: format!("child process running stress case {} ended abnormally (exit {:?}): {}", k, other, last) },
+                case: serde_json::to_value(&case).map_err(|e| e.to_string())?,
+                trace: vec![],
+                note: "large structured workload executed in a child process on a 2 MiB thread stack; not minimised".into(),
+            };
+            std::fs::create_dir_all(format!("{}/replays", o.verif_dir)).map_err(|e| e.to_string())?;
+            std::fs::write(&path, serde_json::to_string(&rf).unwrap()).map_err(|e| e.to_string())?;
+            println!("violation in stress case {}: [{}] {}", k, rf.violation.class, rf.violation.detail);
+            Ok(Some(path))
+        }
+    }
+}
+
+/// child side: `ohsim stress <ID> <k> --tier T`
+pub fn stress_child<C: Check>(o: &Opts, k: usize) -> i32 {
+    let case = match C::stress(o.tier).into_iter().nth(k) {
+        Some(c) => c,
+        None => {
+            eprintln!("no stress case {}", k);
+            return 2;
+        }
+    };
+    let (_, sseed) = run_seeds(o.seed, C::ID, 1_000_000_000 + k as u64);
+    let case2 = case.clone();
+    // default thread stack (2 MiB), like any thread a user of the library would spawn
+    let h = std::thread::spawn(move || {
+        let out = run_case::<C>(&case2, sseed, None, true);
+        (out.verdict, out.harness_error, out.trace)
+    });
+    let (verdict, herr, trace) = match h.join() {
+        Ok(x) => x,
+        Err(_) => {
+            eprintln!("stress thread panicked outside the guarded region");
+            return 2;
+        }
+    };
+    if let Some(e) = herr {
+        eprintln!("{}", e);
+        return 2;
+    }
+    match verdict {
+        Ok(()) => 0,
+        Err(v) => {
+            let rf = ReplayFile {
+                property: C::ID.into(),
+                profile: PROFILE.into(),
+                verif_seed: o.seed,
+                run_index: k as u64,
+                sched_seed: sseed,
+                minimised: false,
+                violation: v.clone(),
+                case: serde_json::to_value(&case).unwrap_or(Value::Null),
+                trace,
+                note: "large structured workload (stress case); not minimised".into(),
+            };
+            let path = stress_replay_path(o, C::ID, k);
+            let _ = std::fs::create_dir_all(format!("{}/replays", o.verif_dir));
+            if std::fs::write(&path, serde_json::to_string(&rf).unwrap()).is_err() {
+                eprintln!("cannot write {}", path);
+                return 2;
+            }
+            let d: String = v.detail.chars().take(600).collect();
+            println!("violation in stress case {}: [{}] {}", k, v.class, d);
+            1
+        }
+    }
 }
 
 /// `replay <file>`: feed the recorded workload and decisions back; exit 1 iff the same violation
